@@ -54,6 +54,23 @@ while test $# -gt 1; do
   shift
 done
 ret=0
+if test -n "$RPV_MPIRUN_PARALLEL"; then
+  # the ranks run at the same time (as under a real mpirun); they are started highest rank first, rank 0 last
+  pids=""
+  i=$((np-1))
+  while test $i -ge 0; do
+    PMIX_RANK=$i "$1" &
+    pids="$pids $!"
+    sleep 0.3
+    i=$((i-1))
+  done
+  for pid in $pids; do
+    wait $pid
+    r=$?
+    test $ret -eq 0 && ret=$r
+  done
+  exit $ret
+fi
 i=0
 while test $i -lt $np; do
   PMIX_RANK=$i "$1"
